@@ -318,16 +318,27 @@ def r20_5(ctx):
         ctx.bad("main-downcast", m.where(), "main does not downcast the error to ValidationFailedError")
         return
     bb, t = dc[0]
-    ve, rv = variant_edges(m, t["target"])
-    if ve is None:
-        raise AnchorError("main: downcast result is not matched")
-    pk = place_key(rv["place"])
+    ve, rv = variant_edges(m, t["target"]) if m.blocks[t["target"]]["term"]["k"] == "switch" else (None, None)
+    regions = {}
+    if ve is not None:
+        pk = place_key(rv["place"])
+        for v, tg in ve.items():
+            regions[v] = set(explore(m, tg, {pk: v}).keys())
+    else:
+        # `downcast_ref::<ValidationFailedError>().is_some()` / `.is_none()` form
+        for b2, t2 in m.calls():
+            if mname(t2) in ("Option::is_some", "Option::is_none") and any(n.kind == "call" and method_name(n.a) == "Error::downcast_ref" for n in om.operand(t2["args"][0]).walk()):
+                be = bool_edges(m, t2["target"])
+                if be:
+                    some_edge, none_edge = (be if mname(t2) == "Option::is_some" else (be[1], be[0]))
+                    regions = {"Some": set(m.reachable(some_edge)), "None": set(m.reachable(none_edge))}
+        if not regions:
+            raise AnchorError("main: downcast result is not matched")
     codes = {}
-    for v, tg in ve.items():
-        reg = set(explore(m, tg, {pk: v}).keys())
-        other = set(explore(m, [x for vv, x in ve.items() if vv != v][0], {pk: [vv for vv in ve if vv != v][0]}).keys())
+    for v in regions:
+        other = set().union(*[r for vv, r in regions.items() if vv != v])
         for d in m.defs.get(0, []):
-            if d[0] in reg - other:
+            if d[0] in regions[v] - other:
                 n = om._def(d, 0, ())
                 c = [x.a.as_int() for x in n.walk() if x.kind == "const" and x.a.as_int() is not None]
                 codes[v] = c[0] if c else None
